@@ -1,5 +1,5 @@
-\* Ideal: with the candidate repair (a name with an empty, '.', '..' or NUL
-\* part is refused before a path is built) Confined holds with no deviation
+\* the repaired design one length further than WirePath_asis.cfg: Confined
+\* holds with no deviation
 SPECIFICATION Spec
 CONSTANTS
   MaxLen = 5
